@@ -14,6 +14,13 @@ func main() {
 		fmt.Println("usage: vgossipval <property-id> [--tier quick|thorough] [--replay path]")
 		os.Exit(2)
 	}
+	if os.Args[1] == "__c05stress" { // child process of the C05 stress stage
+		var seed int64
+		if len(os.Args) > 2 {
+			fmt.Sscan(os.Args[2], &seed)
+		}
+		os.Exit(gossipval.StressChild(seed))
+	}
 	c := core.NewCtx(os.Args[1], os.Args[2:])
 	code := core.ExitInconclusive
 	switch os.Args[1] {
